@@ -117,9 +117,12 @@ def parse_obs(text: str):
 
 # ---------------------------------------------------------------------------- build
 class Lock:
+    def __init__(self, name: str = ""):
+        self.name = name
+
     def __enter__(self):
         BUILD.mkdir(exist_ok=True)
-        self.f = open(BUILD / ".lock", "w")
+        self.f = open(BUILD / f".lock{self.name}", "w")
         fcntl.flock(self.f, fcntl.LOCK_EX)
 
     def __exit__(self, *a):
@@ -151,6 +154,11 @@ def regenerate_hintsgen() -> tuple[bool, str]:
 def coq_build(jobs: int = 8, prop: str | None = None) -> tuple[bool, str]:
     """make the development (incremental, full .vo), or only the theorem file of one property with its
     dependency closure; serialised by a file lock."""
+    if prop and (COQ / "Makefile").exists() and (COQ / "_CoqProject").exists():
+        # fast path without the lock: nothing to do when the property's theorem file is up to date
+        rc, _ = sh(["make", "-q", f"theories/Props/{prop}.vo"], cwd=COQ, timeout=300)
+        if rc == 0:
+            return True, "up to date"
     with Lock():
         head = (COQ / "_CoqProject.head").read_text()
         files = sorted(str(p.relative_to(COQ)) for p in (COQ / "theories").rglob("*.v"))
@@ -221,7 +229,7 @@ def proof_gate(prop: str) -> dict:
     if hits:
         res["error"] = "forbidden vernacular: " + "; ".join(hits[:5])
         return res
-    with Lock():
+    with Lock("_" + prop):
         rc, log = sh(["timeout", "600", "coqc", *COQ_ARGS, str(f)], cwd=COQ, timeout=700)
     res["wall_s"] = round(time.time() - t0, 2)
     if rc != 0:
